@@ -21,7 +21,9 @@ NOW = [0]
 class _FakeDateTime(real_datetime.datetime):
     @classmethod
     def now(cls, tz=None):
-        return BASE + real_datetime.timedelta(seconds=NOW[0])
+        local = BASE + real_datetime.timedelta(seconds=NOW[0])
+        # faithful to datetime.now(tz): the same instant expressed in tz (the process may run under any TZ)
+        return local if tz is None else real_datetime.datetime.fromtimestamp(local.timestamp(), tz)
 
 
 fake_mod = types.ModuleType("datetime")
@@ -81,6 +83,15 @@ def run_e2e(c):
             ts = (BASE + real_datetime.timedelta(seconds=t)).timestamp()
             os.utime(os.path.join(path, "output.pkl"), (ts, ts))
             infos[path] = arg
+        # files a writer left behind inside an entry (it died between writing its temporary file and the rename of
+        # concurrency_safe_write), or any other file stored next to the result: they occupy space, so they count
+        for idx, nbytes, name in c.get("stale", []):
+            arg, n, t = c["entries"][idx]
+            path = os.path.join(cf.store_backend.location, cf.func_id, cf._get_args_id(arg, n))
+            with open(os.path.join(path, name), "wb") as fh:
+                fh.write(b"s" * nbytes)
+            ts = (BASE + real_datetime.timedelta(seconds=t)).timestamp()
+            os.utime(os.path.join(path, "output.pkl"), (ts, ts))
         # entry directories WITHOUT output.pkl (a result that could not be pickled leaves metadata.json only; a crash
         # after create_location leaves an empty directory): they are entries of the store too
         func_dir = os.path.join(cf.store_backend.location, cf.func_id)
